@@ -321,3 +321,27 @@ MUTANTS["C06"] = [
     M("twin-rename-local", AFB, "        long_name = option.long_name\n        short_name = option.short_name\n\n        if self.has_option(long_name) or self.has_command_option(long_name):\n            raise CannotAddOptionException.already_exists(long_name)\n\n        if self.has_option(short_name) or self.has_command_option(short_name):\n            raise CannotAddOptionException.already_exists(short_name)\n\n        self._options[long_name] = option\n\n        if short_name:\n            self._options_by_short_name[short_name] = option",
       "        ln = option.long_name\n        sn = option.short_name\n\n        if self.has_option(ln) or self.has_command_option(ln):\n            raise CannotAddOptionException.already_exists(ln)\n\n        if self.has_option(sn) or self.has_command_option(sn):\n            raise CannotAddOptionException.already_exists(sn)\n\n        self._options[ln] = option\n\n        if sn:\n            self._options_by_short_name[sn] = option", twin=True),
 ]
+
+OPT = "src/clikit/api/args/format/option.py"
+AGM = "src/clikit/api/args/format/argument.py"
+ABO = "src/clikit/api/args/format/abstract_option.py"
+COP = "src/clikit/api/args/format/command_option.py"
+
+MUTANTS["C07"] = [
+    M("pair-dropped", OPT, "        if flags & self.OPTIONAL_VALUE and flags & self.MULTI_VALUED:\n            raise ValueError(\n                \"The option flags VALUE_OPTIONAL and MULTI_VALUED cannot be combined.\"\n            )\n\n", "", expect="C07-R2"),
+    M("type-pair-dropped", AGM, "            if flags & self.FLOAT:\n                raise ValueError(\n                    \"The argument flags BOOLEAN and FLOAT cannot be combined.\"\n                )\n", "", expect="C07-R2"),
+    M("float-missing-from-mask", OPT, "if not flags & (self.STRING | self.BOOLEAN | self.INTEGER | self.FLOAT):", "if not flags & (self.STRING | self.BOOLEAN | self.INTEGER):", expect="C07-R3"),
+    M("no-value-not-single-bit", OPT, "    NO_VALUE = 4\n", "    NO_VALUE = 6\n", expect="C07-R1"),
+    M("constant-collision", AGM, "    MULTI_VALUED = 4\n", "    MULTI_VALUED = 2\n", expect="C07-R1"),
+    M("integer-to-float-converter", OPT, "        elif self._flags & self.INTEGER:\n            return parse_int(value, nullable)", "        elif self._flags & self.INTEGER:\n            return parse_float(value, nullable)", expect="C07-R5"),
+    M("accepts-value-other-bit", OPT, "        return not bool(self.NO_VALUE & self._flags)", "        return not bool(self.OPTIONAL_VALUE & self._flags)", expect="C07-R4"),
+    M("required-default-check-removed", AGM, "        if self.is_required():\n            raise ValueError(\"Required arguments do not accept default values.\")\n\n", "", expect="C07-R2"),
+    M("elif-to-conditional", OPT, "        elif flags & self.BOOLEAN:\n            if flags & self.INTEGER:", "        elif flags & self.BOOLEAN and not flags & self.NULLABLE:\n            if flags & self.INTEGER:", expect="C07-R2"),
+    M("alias-pattern-differs", COP, 'if not re.match(r"^[a-zA-Z0-9\\-]+$", alias):', 'if not re.match(r"^[a-zA-Z0-9_\\-]+$", alias):', expect="C07-R6"),
+    M("nullable-not-passed", AGM, "        elif self._flags & self.FLOAT:\n            return parse_float(value, nullable)", "        elif self._flags & self.FLOAT:\n            return parse_float(value, True)", expect="C07-R5"),
+    M("multi-without-required", OPT, "        if flags & self.MULTI_VALUED and not flags & self.REQUIRED_VALUE:\n            flags |= self.REQUIRED_VALUE\n\n", "", expect="C07-R3"),
+    M("option-validator-not-chained", OPT, "        super(Option, self)._validate_flags(flags)\n\n        if flags & self.NO_VALUE:", "        if flags & self.NO_VALUE:", expect="C07-R2"),
+    M("true-literal-missing", USR, '        if value in {"true", "1", "yes", "on"}:', '        if value in {"1", "yes", "on"}:', expect="C07-R7"),
+    M("twin-if-if-chain", AGM, "        elif flags & self.INTEGER:\n            if flags & self.FLOAT:\n                raise ValueError(\n                    \"The argument flags INTEGER and FLOAT cannot be combined.\"\n                )",
+      "        if flags & self.INTEGER and flags & self.FLOAT:\n            raise ValueError(\n                \"The argument flags INTEGER and FLOAT cannot be combined.\"\n            )", twin=True),
+]
